@@ -265,6 +265,32 @@ impl<'a, C: vcommon::Comp> Observe for Option<&'a mut C> {
     }
 }
 
+/// One compiled resource view list: (resource index, mutable) in the order written.
+#[derive(Clone, Debug)]
+pub struct ResViewMeta {
+    pub views: &'static [(u8, bool)],
+}
+
+/// Helper for resource views, mirroring `Observe`.
+pub trait ObserveRes {
+    fn observe_res(self, salt: Option<u32>) -> (Obs, Obs);
+}
+impl<'a, T: vcommon::Resource> ObserveRes for &'a T {
+    fn observe_res(self, _salt: Option<u32>) -> (Obs, Obs) {
+        let o = self.obs();
+        (o, o)
+    }
+}
+impl<'a, T: vcommon::Resource> ObserveRes for &'a mut T {
+    fn observe_res(self, salt: Option<u32>) -> (Obs, Obs) {
+        let before = self.obs();
+        if let Some(s) = salt {
+            self.set(<T as vcommon::Resource>::norm(mutate(before.payload, s)));
+        }
+        (before, self.obs())
+    }
+}
+
 /// One compiled (Views, EntryViews, SubViews) triple for query-time entries.
 #[derive(Clone, Debug)]
 pub struct EntryMeta {
@@ -333,6 +359,8 @@ pub trait Reg: Sized + 'static {
     fn run_query(w: &mut Self::W, q: usize, mode: QMode, salt: Option<u32>) -> QueryOut;
     /// single-entity query through `World::entry(id).query(..)` with the views/filter of query `q`
     fn entry_query(w: &mut Self::W, id: Id, q: usize, salt: Option<u32>) -> Option<Option<QRow>>;
+    fn res_views() -> &'static [ResViewMeta];
+    fn run_res_view(w: &mut Self::W, rv: usize, path: u8, salt: Option<u32>) -> Vec<(u8, (Obs, Obs))>;
     /// indices (into `queries()`) of the queries also compiled as parallel queries
     fn par_queries() -> &'static [usize];
     fn run_par_query(w: &mut Self::W, q: usize, term: PTerm, salt: Option<u32>, pool: &rayon::ThreadPool) -> ParOut;
